@@ -95,12 +95,14 @@ def namespaces_of(program):
     return out
 
 
-def judge_savepoint(program, lang, stage, key, col, tmpdir, textG):
+def judge_savepoint(program, lang, stage, key, col, tmpdir, textG, path=None):
+    """`program` is the twin (deep copy) of the program as it was when it was dumped to `path` in phase 1."""
     from src import utils
-    path = os.path.join(tmpdir, 'p_%s.bin' % stage)
     viols = []
     try:
-        utils.dump_program(path, program)
+        if path is None:
+            path = os.path.join(tmpdir, 'p_%s.bin' % stage)
+            utils.dump_program(path, program)
         q = utils.load_program(path)
     except RecursionError:
         col.feature('dump_recursion_error')
@@ -184,31 +186,41 @@ def judge_case(case, col):
         prog = case.program
         textG = pg.translate(prog, lang)
         feats = pg.features(prog)
-        stages = [('G', None)]
         utils = boot._state['utils']
-
-        def run_stage(stage):
-            viols = judge_savepoint(prog, lang, stage, case.key(), col, tmpdir, textG)
-            k = hashlib.sha1((textG + stage).encode()).hexdigest()[:16]
-            nontriv = stage != 'G' or feats.get('bounded_class_params', 0) > 0
-            col.case(key=k, nontrivial=nontriv,
-                     sample=lambda: {'lang': lang, 'stage': stage, 'seed': case.seed, 'switches': case.switches,
-                                     'limits': case.limits, 'nodes': feats.get('nodes'), 'program_head': textG[:300]})
-            for sig, detail in viols:
-                col.violation(sig, detail, dict(case.key(), stage=stage),
-                              size=(len(case.tape) if case.tape else 100000 + len(textG)))
-        run_stage('G')
+        from src import utils as repo_utils
+        import copy
         import random
+        # phase 1: exactly what the driver does - the SAME program object is dumped after every stage,
+        # with nothing but the mutations in between (a deep copy remembers what was dumped)
+        saves = []
+
+        def save(stage):
+            path = os.path.join(tmpdir, 'p_%s.bin' % stage)
+            repo_utils.dump_program(path, prog)
+            saves.append((stage, path, copy.deepcopy(prog)))
+        save('G')
         utils.random.r = random.Random((case.seed or 1) * 3 + 1)
         te = pg.erase(prog, lang)
         if te.is_transformed:
-            run_stage('E1')
+            save('E1')
             te2 = pg.erase(prog, lang)
             if te2.is_transformed:
-                run_stage('E2')
+                save('E2')
         to = pg.overwrite(prog, lang)
         if to.is_transformed:
-            run_stage('O')
+            save('O')
+        # phase 2: load every dump and judge it against the program as it was at that save point
+        for stage, path, twin in saves:
+            viols = judge_savepoint(twin, lang, stage, case.key(), col, tmpdir, textG, path=path)
+            k = hashlib.sha1((textG + stage).encode()).hexdigest()[:16]
+            nontriv = stage != 'G' or feats.get('bounded_class_params', 0) > 0
+            col.case(key=k, nontrivial=nontriv,
+                     sample=lambda stage=stage: {'lang': lang, 'stage': stage, 'seed': case.seed, 'switches': case.switches,
+                                                 'limits': case.limits, 'nodes': feats.get('nodes'),
+                                                 'program_head': textG[:300]})
+            for sig, detail in viols:
+                col.violation(sig, detail, dict(case.key(), stage=stage),
+                              size=(len(case.tape) if case.tape else 100000 + len(textG)))
     except pg.Oversize:
         col.feature('discarded_oversize')
     except Exception as e:
